@@ -1217,6 +1217,8 @@ func (prop) Generate(rng *rand.Rand, tier string) []corr.Case {
 	for i := 0; i < nDup; i++ {
 		cases = append(cases, genDupBatches(rng, 12+rng.Intn(14)))
 	}
+	// event lists of whole blocks through blockchain.CalculateEventRoot (events.go); appended last as well
+	cases = append(cases, genEventRootCases(rng, tier)...)
 	return cases
 }
 
@@ -1335,6 +1337,8 @@ func (r *runner) step(op string) string {
 			r.historyCheck()
 		}
 		return corr.Hex(root)
+	case "evroot": // events.go: blockchain.CalculateEventRoot of a whole block
+		return r.evRoot(op, w)
 	case "reopen":
 		t := newTrie(r.root, r.keyLen, r.sth)
 		root, err := t.Update(r.database, [][]byte{}, [][]byte{})
@@ -1680,6 +1684,14 @@ func (prop) Classify(c corr.Case, out []string) string {
 				feats["reuse"] = true
 			}
 		}
+	}
+	if c.Tag == "eventroot" && len(out) == 2 && len(out[1]) == 64 {
+		if n := strings.Count(c.Ops[1], "="); n > 1024 {
+			return "eventroot:pairs>1024"
+		} else if n > 0 {
+			return "eventroot:pairs<=1024"
+		}
+		return "eventroot:empty"
 	}
 	if c.Tag == "event" && len(roots) == 1 {
 		return "event:one-batch-raw-values" // event tree: 12-byte keys, values of any length, single batch
